@@ -13,6 +13,7 @@ import (
 // exactly one atomic read-modify-write (so concurrent calls linearise: ids distinct and gapless).
 //
 //verif:ghostlog 1
+//verif:noreplay the count of atomic operations is an engine-side ghost log (natively empty)
 func VerifC03_NextIterationStep() {
 	c, n := zz.Uint64("c"), zz.Uint64("N")
 	zz.Assume(c < 1<<63)
